@@ -4,7 +4,13 @@ CONSTANTS MaxWraps = 4
           MaxCalls = 5
           Wide = FALSE
           FixedCode = TRUE
-          Modes = {"bind", "heap", "memo", "chain"}
+          Modes = {"bind", "heap", "memo", "chain", "exc", "args", "deco"}
+          MaxExcChain = 2
+          MaxBindings = 1
+          MaxArgSteps = 0
+          MaxDecoObjs = 3
+          MaxDecoCalls = 0
+          TwoDecos = FALSE
 INIT Init
 NEXT Next
 INVARIANT BindLaws
@@ -16,9 +22,16 @@ INVARIANT FallbackIffRaises
 INVARIANT DropsExactlyUndeclared
 INVARIANT WrapTwiceIsOnce
 INVARIANT NormalFormKeepsBehaviour
+INVARIANT ExcLaws
+INVARIANT ReplayIsTheCall
+INVARIANT ArgBindings
+INVARIANT DecoLaws
+INVARIANT DecoratedNormal
 INVARIANT NoDoubleWrapping
 INVARIANT MechRefinesMC
 INVARIANT MemoOncePerKey
 PROPERTY OnlyNewObject
 PROPERTY MechOnlyNewObject
 PROPERTY MemoStable
+PROPERTY ArgumentsUntouched
+PROPERTY DecoratedStable
